@@ -38,6 +38,8 @@ _idx = st.integers(0, 30)
 def _op_list():
     return st.one_of(
         st.tuples(st.just("setidx"), _idx, _idx),
+        # slice assignment: objects[i:j] = <list or iterator of new objects>
+        st.tuples(st.just("setslice"), _idx, st.integers(0, 2), st.lists(_idx, max_size=2), st.booleans()),
         st.tuples(st.just("append"), _idx),
         st.tuples(st.just("insert"), _idx, _idx),
         st.tuples(st.just("extend"), st.lists(_idx, max_size=3)),
@@ -69,7 +71,8 @@ def _op_dict():
         st.tuples(st.just("replace"), st.lists(_idx, max_size=4)),
         st.tuples(st.just("setval"), _idx, st.booleans()),
         st.tuples(st.just("setval"), _idx, st.booleans()),
-        st.tuples(st.just("refused"), st.sampled_from(["remove_absent", "pop_out_of_range", "pop_missing_key", "update_malformed"]), _idx),
+        st.tuples(st.just("refused"), st.sampled_from(["remove_absent", "pop_out_of_range", "pop_missing_key", "update_malformed",
+                                                       "update_valid_then_malformed"]), _idx),
     )
 
 
@@ -239,6 +242,21 @@ def execute(case):
             i = op[1] % len(model)
             objs[i] = new
             model[i] = (str(new), new)
+        elif name == "setslice":
+            if not model:
+                continue
+            i = op[1] % len(model)
+            j = min(len(model), i + op[2])
+            news = []
+            for sx in op[3]:
+                n_ = _fresh(model + [(str(x), x) for x in news], sx)
+                if n_ is not _NO:
+                    news.append(n_)
+            objs[i:j] = iter(news) if op[4] else list(news)
+            model[i:j] = [(str(n_), n_) for n_ in news]
+            if j > i:
+                removal = True
+            res.label("slice_assignment_from_iterator" if op[4] else "slice_assignment")
         elif name == "append":
             new = _fresh(model, op[1])
             if new is _NO:
@@ -373,6 +391,11 @@ def execute(case):
                     if not model or unl():
                         continue
                     objs.pop("no-such-key")
+                elif how == "update_valid_then_malformed":
+                    k_ = _freshkey(model, op[2])
+                    if absent is _NO or k_ is _NO or unl():
+                        continue
+                    objs.update([(k_, absent), ("k9",)])      # the second item is not a pair: the first must not be applied
                 else:
                     if absent is _NO:
                         continue
